@@ -260,6 +260,7 @@ func newCtx(p *Prog, prop, tier string) (*Ctx, error) {
 	if err := readJSON(filepath.Join(verifDir(), "trusted_sites.json"), &c.trusted); err != nil {
 		return nil, err
 	}
+	setInlinePolicy()
 	return c, nil
 }
 
@@ -549,4 +550,28 @@ func (p *Prog) funcDecl(pkgSuffix, recv, name string) (*ast.FuncDecl, *packages.
 		}
 	}
 	return nil, pk
+}
+
+// setInlinePolicy: the path enumeration looks into module functions that are not in the committed
+// baseline list (baseline_functions.txt, the functions of the tree the rules were written against):
+// a helper extracted from an analysed function by a later change is read as part of its caller.
+// Without the file nothing is inlined.
+func setInlinePolicy() {
+	data, err := os.ReadFile(filepath.Join(verifDir(), "baseline_functions.txt"))
+	if err != nil {
+		inlineHelper = nil
+		return
+	}
+	base := map[string]bool{}
+	for _, l := range strings.Split(string(data), "\n") {
+		if l = strings.TrimSpace(l); l != "" {
+			base[l] = true
+		}
+	}
+	inlineHelper = func(f *ssa.Function) bool {
+		if f.Pkg == nil || !strings.HasPrefix(f.Pkg.Pkg.Path(), modPath) || f.Parent() != nil {
+			return false
+		}
+		return !base[funcName(f)]
+	}
 }
